@@ -61,7 +61,7 @@ func newWindow(c Case) (window.Window, error) {
 	mode := cfgStr(c, "mode", "et")
 	wc := types.WindowConfig{
 		TsProp:            "ts",
-		TimeUnit:          time.Nanosecond,
+		TimeUnit:          time.Duration(cfgInt(c, "tsunit", 1)), // 1 = ns; 0 = TIMEUNIT not declared
 		WatermarkInterval: time.Hour,
 		MaxOutOfOrderness: time.Duration(cfgInt(c, "ooo", 0)),
 		AllowedLateness:   time.Duration(cfgInt(c, "late", 0)),
@@ -94,7 +94,24 @@ func newWindow(c Case) (window.Window, error) {
 func rowOf(id string, ts string, key string) map[string]interface{} {
 	n, _ := strconv.ParseInt(id, 10, 64)
 	r := map[string]interface{}{"id": n}
-	if ts != "none" {
+	// timestamp field variants (window/factory.go extractTimestamp): int64 (plain digits), f<digits>
+	// float64, s<digits> decimal string, t<digits> time.Time, "garbage" non-numeric string, "nil"
+	// explicit nil, "none" field absent
+	switch {
+	case ts == "none":
+	case ts == "nil":
+		r["ts"] = nil
+	case ts == "garbage":
+		r["ts"] = "abc"
+	case strings.HasPrefix(ts, "f"):
+		t, _ := strconv.ParseInt(ts[1:], 10, 64)
+		r["ts"] = float64(t)
+	case strings.HasPrefix(ts, "s"):
+		r["ts"] = ts[1:]
+	case strings.HasPrefix(ts, "t"):
+		t, _ := strconv.ParseInt(ts[1:], 10, 64)
+		r["ts"] = time.Unix(0, t)
+	default:
 		t, _ := strconv.ParseInt(ts, 10, 64)
 		r["ts"] = t
 	}
@@ -232,6 +249,13 @@ func execWindow(c Case) [][][]string {
 		case "tick":
 			window.VerifWatermarkTick(w)
 		case "pttick":
+			for _, g := range op[1:] {
+				p := strings.Split(g, ":")
+				if len(p) >= 3 {
+					k, _ := strconv.Atoi(p[0])
+					gaps = append(gaps, gapAdd{k, rowOf(p[1], p[2], "")})
+				}
+			}
 			w.Trigger()
 		default:
 			cur = append(cur, []string{"bad-op"})
